@@ -22,6 +22,7 @@ def run(ctx, replay=None):
               dict(shape="two", max_env=2, flagsets="NoAllFlagSets", env="FullEnv", alt="TwoAlt", invariants=inv, properties=[])]
         ex = [dict(shape="chain", max_env=3, flags="m,c,o,e", faults=False),
               dict(shape="star", max_env=2, flags="m,c,o,e", faults=False),
+              dict(shape="deep", max_env=2, flags="m,c,o", faults=False),
               dict(shape="two", max_env=2, flags="m,c,o,e", faults=False, env="Edit,Touch,DeleteArt,Truncate,StripKey,ResaveArt,Replace,MakeCsr,SetIssuer"),
               dict(shape="chain", max_env=2, flags="m", extra="c,m;c,m,o;a;e,m;c,e,m,o", faults=False, native=True),
               dict(shape="star", max_env=2, flags="m", extra="c,m;a", faults=False, native=True),
